@@ -88,6 +88,9 @@ def run(ctx, broken):
                 break
         if io and io[0].startswith("CRASH"):
             res["failures"].append({"class": "crash", "what": "the library crashed: %s -- history %s" % (io[0][:200], line[:300]), "case": line})
+    # worker side: the per-thread matcher scratch memory - a pool with MORE threads than cores scores ~30k items; every
+    # score and the set of matches are compared with one fresh Matcher computing them sequentially
+    scratch_probe(ctx, res)
     if ctx["tier"] == "thorough":
         m = miri_probe()
         res["extra"]["miri"] = m
@@ -97,6 +100,39 @@ def run(ctx, broken):
                    "independently of the Coq predicate; 60 scheduled histories tie the order of the yield-point sites; thorough tier additionally runs a two-thread get/extend probe under Miri." % (len(rows), len(constrained)))
     res["samples"] = [{"site": list(r)} for r in rows[:5]]
     return res
+
+
+def scratch_probe(ctx, res):
+    rounds, nitems = (3, 30000) if ctx["tier"] == "quick" else (12, 40000)
+    rc, out, err, dt = vlib.run([ctx["hn"], "scratch-probe", str(rounds), str(nitems)], timeout=600)
+    summ = [l for l in out.splitlines() if l.startswith("S ")]
+    fl = [l for l in out.splitlines() if l.startswith("F ")]
+    res["evaluations"] += len(summ)
+    nthreads = None
+    bad = []
+    for l in summ:
+        d = dict(kv.split("=", 1) for kv in l.split(" ")[3:])
+        nthreads = d.get("threads")
+        if (d["wrong"], d["missing"], d["extra"]) != ("0", "0", "0") or d["count"] != d["items"]:
+            bad.append(l)
+    res["extra"]["scratch_probe"] = {"rounds": rounds, "items": nitems, "pool_threads": nthreads, "phases_compared": len(summ), "seconds": round(dt, 1), "rc": rc}
+    intro = "worker with %s pool threads (more than the %d hardware threads) over %d items" % (nthreads or "2 x cores", os.cpu_count() or 0, nitems)
+    if fl or bad:
+        what = []
+        for l in fl[:3]:
+            m = re.match(r"F (\d+) (\d+) (\w+) item=(\d+) text=(.*) pattern=(\".*\") expected=(\S+) got=(\S+)$", l)
+            if m:
+                rd, ph, cls, item, text, pat, exp, got = m.groups()
+                what.append("item %s (text %r) under pattern %s: %s - expected score %s (one fresh Matcher, sequentially), the snapshot has %s" % (
+                    item, text, pat, {"wrong_score": "wrong score", "missing": "missing from the matches", "extra": "in the matches although it does not match"}.get(cls, cls), exp, got))
+            else:
+                what.append(l)
+        res["failures"].append({"class": "scratch_shared", "what": "%s: the scores the pool threads computed differ from the sequential reference - two pool threads used the same matcher scratch memory at the same time (data race on the scoring matrix): %s; summary: %s" % (
+            intro, "; ".join(what) or "-", " | ".join(bad)[:600]), "case": "hn scratch-probe %d %d" % (rounds, nitems), "lines": fl[:5] + bad[:3]})
+    elif rc != 0 or len(summ) != 3 * rounds:
+        pm = re.findall(r"panicked at ([^\n]*)\n([^\n]*)", err)
+        res["failures"].append({"class": "scratch_shared", "what": "%s: the probe process died (rc=%s) after %d of %d comparisons; %d panics inside the pool threads, first: %s - the matcher's scratch memory was corrupted while it was scoring (two pool threads sharing one matcher), or the worker crashed for another reason" % (
+            intro, rc, len(summ), 3 * rounds, len(pm), (" :: ".join(pm[0]) if pm else " ".join(err.split())[-300:])), "case": "hn scratch-probe %d %d" % (rounds, nitems)})
 
 
 def miri_probe():
